@@ -13,8 +13,11 @@ implementation's own `psend` events, never from the model):
   @k        the k-th distinct id seen on the wire (k from 0); unknown id when not seen yet
   @cur:c    id of the request most recently sent on context c ('-' = socket), if on the wire
   @old:c    id of an earlier request of context c that reached the wire
+  <ref>m<d> / <ref>p<d>   the id at distance -d / +d from <ref> (ids are allocated consecutively, wrapping
+            inside 0x80000000..0xffffffff): names requests that were allocated but never reached the wire
+            (send cancelled / timed out / replaced while no pipe was ready); e.g. @cur:-m1, @3p2
   a trailing '~' clears the high bit.   Form: recv_done <p> <idref>.<bodyhex|->
-Replays and corpus files contain only the concrete form @k.
+Replays and corpus files contain only the concrete forms @k and @k m|p d.
 """
 import os, re, sys, time, json, pty, tty, select, subprocess, tempfile, concurrent.futures as cf
 from .. import core, build, lean, sim
@@ -50,6 +53,7 @@ class Gen:
         self.retry = {"-": 60000}
         self.sent = []           # contexts that sent something
         self.last_reply = None
+        self.abandoned = False   # some send may have ended without ever reaching a pipe
 
     def body(self):
         self.nbody += 1
@@ -112,14 +116,78 @@ class Gen:
             self.busy.clear()
         return True
 
+    def emit_send(self, w, a, m):
+        self.ops.append(f"send {w} {a} - {self.body()} {m}")
+        if m != "nb":
+            self.busy.add(a)
+        if self.npipes == 0 or (w in self.sent and self.r.chance(1, 3)):
+            self.abandoned = True        # (approximation; only steers the choice of reply ids)
+        self.sent.append(w)
+        if self.tick >= 1:
+            self.tick_c.add(self.now + self.tick)
+        if self.retry.get(w, -1) > 0:
+            self.targets.add(self.now + self.retry[w])
+
+    def abandon_prologue(self):
+        """a request that is queued while no pipe is ready and ends there (timeout, cancel, replaced, context
+        closed), then a new request on the same context that is sent, then a reply carrying the id allocated
+        just before it — the id of the request that never reached the wire"""
+        r = self.r
+        w = self.who()
+        a = self.aio()
+        how = r.choice(["timeout", "cancel", "replace", "nb", "abort"])
+        if how == "timeout":
+            t = r.choice(TIMEOUTS)
+            while self.now + t in self.cand or self.now + t in self.targets:
+                t += 1
+            self.aio_dl.add(self.now + t)
+            dl = self.now + t
+            self.emit_send(w, a, str(t))
+            for _ in range(6):
+                if self.now > dl or not self.advance(dl + r.choice([1, 2])):
+                    break
+        elif how == "nb":
+            self.emit_send(w, a, "nb")
+        else:
+            self.emit_send(w, a, r.choice(["inf", "def"]))
+            if how == "cancel":
+                self.ops.append(f"cancel {a}")
+            elif how == "abort":
+                self.ops.append(f"abort {a} {r.choice([5, 20, 7])}")
+        self.busy.clear()
+        if r.chance(1, 4):
+            self.ops.append("poll")
+        self.ops.append("pipe_add 0031")
+        self.npipes += 1
+        a2 = self.aio()
+        self.emit_send(w, a2, r.choice(["inf", "nb", "def"]))
+        if r.chance(1, 2):
+            self.ops.append("send_done 0 0")
+        a3 = None
+        if r.chance(2, 3):
+            a3 = self.aio()
+            self.ops.append(f"recv {w} {a3} {r.choice(['inf', 'def'])}")
+        d = r.choice([1, 1, 1, 2])
+        self.ops.append(f"recv_done 0 @cur:{w}m{d}.{self.body()}")
+        if a3 is None and r.chance(1, 2):
+            self.ops.append(f"recv {w} {self.aio()} nb")
+        if r.chance(2, 3):
+            self.ops.append(f"recv_done 0 @cur:{w}.{self.body()}")
+        self.busy.clear()
+
     def reply(self):
         r = self.r
         p = r.below(self.npipes)
         k = r.below(100)
         body = self.body() if r.chance(4, 5) else "-"
         c = r.choice(self.sent) if self.sent else "-"
-        if k < 50:
+        rel = f"{'m' if r.chance(4, 5) else 'p'}{r.choice([1, 1, 1, 2, 2, 3])}"
+        if k < (28 if self.abandoned else 44):
             ref = f"@cur:{c}"
+        elif k < 50:
+            # an id next to the current one: a request that was allocated before/after it; it may never have
+            # reached the wire (send cancelled / timed out / replaced while no pipe was ready)
+            ref = f"@cur:{c}{rel}"
         elif k < 60:
             ref = f"@old:{c}"
         elif k < 68:
@@ -139,7 +207,7 @@ class Gen:
             self.ops.append(f"recv_done {p} !{r.choice(ERRS)}")
             return
         else:
-            ref = f"@{r.below(4)}"
+            ref = f"@{r.below(4)}" + (rel if r.chance(1, 2) else "")
         self.last_reply = (p, f"{ref}.{body}")
         self.ops.append(f"recv_done {p} {ref}.{body}")
 
@@ -174,9 +242,12 @@ class Gen:
             self.ops.append(f"ctx_open {c}")
             self.ctxs.append(c)
             self.retry[str(c)] = self.retry["-"]
+        if r.chance(1, 5):
+            self.abandon_prologue()
         for _ in range(r.choice([0, 1, 1, 2])):
-            self.ops.append("pipe_add 0031")
-            self.npipes += 1
+            if self.npipes < 3:
+                self.ops.append("pipe_add 0031")
+                self.npipes += 1
         while len(self.ops) < n:
             k = r.below(100)
             if k < 6 and self.npipes < 3:
@@ -189,16 +260,7 @@ class Gen:
                 a = self.aio()
                 if a is None:
                     self.busy.clear(); continue
-                w = self.who()
-                m = self.mode()
-                self.ops.append(f"send {w} {a} - {self.body()} {m}")
-                if m != "nb":
-                    self.busy.add(a)
-                self.sent.append(w)
-                if self.tick >= 1:
-                    self.tick_c.add(self.now + self.tick)
-                if self.retry.get(w, -1) > 0:
-                    self.targets.add(self.now + self.retry[w])
+                self.emit_send(self.who(), a, self.mode())
             elif k < 40:
                 a = self.aio()
                 if a is None:
@@ -275,7 +337,9 @@ def corpus_cases():
 # ---------------------------------------------------------------------------------------------
 # id renaming (kept out of the shared files on purpose)
 
-REF = re.compile(r"^@(cur:|old:)?([0-9-]+)(~?)\.([0-9a-fA-F]*|-)$")
+REF = re.compile(r"^@(cur:|old:)?(\d+|-)(?:([mp])(\d+))?(~?)\.([0-9a-fA-F]*|-)$")
+IDMAX = 0xffffffff
+REL_BASE, REL_OFF = 65536, 128        # Model/Req.lean relBase, relOff
 
 
 class Ids:
@@ -330,29 +394,48 @@ class Ids:
         return None
 
     def concretise(self, line):
-        """symbolic op -> (op with @k only, line for the implementation, line for the model)"""
+        """symbolic op -> (op with @k[m|p d] only, line for the implementation, line for the model).
+        `m<d>` / `p<d>`: the id at distance -d / +d from the named one.  nni_id_alloc hands out consecutive ids
+        (wrapping inside [IDBASE, IDMAX]), so this names requests that were allocated but never seen on the
+        wire; if the id at that distance was seen after all, its own first-occurrence name is used."""
         w = line.split()
         if len(w) == 3 and w[0] == "recv_done" and w[2].startswith("@"):
             m = REF.match(w[2])
             if not m:
                 return line, line, line
-            kind, arg, low, body = m.group(1) or "", m.group(2), m.group(3), m.group(4)
+            kind, arg, sign, dist, low, body = m.group(1) or "", m.group(2), m.group(3), m.group(4), m.group(5), m.group(6)
             k = self.resolve(kind, arg)
             if k is None:
                 k = 9000 + len(self.order)       # names no request
             body = "" if body == "-" else body
+            delta = 0
+            if sign and k < len(self.order):
+                delta = min(int(dist), REL_OFF - 1) * (-1 if sign == "m" else 1)
             if k < len(self.order):
                 real = self.order[k]
+                if delta:
+                    real = IDBASE + (real - IDBASE + delta) % (IDMAX - IDBASE + 1)
+                    if real in self.index:       # seen on the wire: it has a name of its own
+                        k, delta = self.index[real], 0
             else:
                 real = (0xF0000000 + k) & 0xffffffff
                 while real in self.index:
                     real = (real + 0x10000) | IDBASE
-            canon = IDBASE + k
+            canon = IDBASE + k + (REL_BASE * (REL_OFF + delta) if delta else 0)
+            rel = f"{'m' if delta < 0 else 'p'}{abs(delta)}" if delta else ""
             if low:
                 real &= 0x7fffffff
                 canon &= 0x7fffffff
-            conc = f"recv_done {w[1]} @{k}{low}.{body or '-'}"
+            conc = f"recv_done {w[1]} @{k}{rel}{low}.{body or '-'}"
             return conc, f"recv_done {w[1]} {real:08x}{body}", f"recv_done {w[1]} {canon:08x}{body}"
+        if len(w) == 3 and w[0] == "recv_done" and len(w[2]) >= 8 and w[2][0] in "89abcdefABCDEF":
+            # a literal id: the model sees the first-occurrence name if it was on the wire, else a name of nothing
+            try:
+                real = int(w[2][:8], 16)
+            except ValueError:
+                return line, line, line
+            canon = IDBASE + (self.index[real] if real in self.index else REL_BASE - 1)
+            return line, line, f"recv_done {w[1]} {canon:08x}{w[2][8:]}"
         return line, line, line
 
 
